@@ -28,7 +28,8 @@ def _chord(x, y, a, b):
         return c, np.zeros(len(xs))
     m = (yb - ya) / d
     c = ya + m * (xs - xa)
-    delta = 16 * U * (abs(m) * (np.abs(xs) + abs(xa)) + abs(ya) + np.abs(c))
+    # symmetric in the two chord ends: covers x*m + b, y_a + m (x - x_a), y_b + m (x - x_b), two-point (Lagrange) form, np.interp
+    delta = 16 * U * (abs(m) * (np.abs(xs) + abs(xa) + abs(xb)) + abs(ya) + abs(yb) + np.abs(c))
     # subnormal / underflow guard
     delta = delta + 1e-300
     return c, delta
